@@ -1768,6 +1768,154 @@ func genCase(r *rand.Rand, id int, pl *pools) Case {
 	return c
 }
 
+// genDropRepCase ("+droprep", own PRNG stream): ONE in-process `| drop` stage that names the same label more than once --
+// with different values, the same value twice, bare and with a value in either order, with another label in between, three
+// times -- behind a json / logfmt / line_format split, on lines (or stream labels) that carry each of the named values, a value
+// no parameter names, and no such label at all.  The stage is the conjunction over ALL its parameters (ClickHouse prints one
+// `(k, v) != (name, value)` per parameter): a stage that keeps one value per name honours only the last one (seed C09-g).
+func genDropRepCase(r *rand.Rand, id int) Case {
+	c := Case{ID: id}
+	vals := []string{"debug", "info", "error", "warn"}
+	name := pick(r, []string{"level", "level", "level", "msg", "pod"})
+	other := pick(r, []string{"app", "n", "zone", "job"})
+	v1 := vals[r.Intn(3)]
+	v2 := vals[(indexOf(vals, v1)+1+r.Intn(2))%len(vals)]
+	q := func(n, v string) string { return n + "=" + strconv.Quote(v) }
+	var ps []string
+	form := r.Intn(9)
+	switch form {
+	case 0, 1, 2:
+		ps = []string{q(name, v1), q(name, v2)}
+	case 3:
+		ps = []string{name, q(name, v2)} // the unconditional parameter first: a last-one-wins table loses it
+	case 4:
+		ps = []string{q(name, v1), name}
+	case 5:
+		ps = []string{q(name, v1), other, q(name, v2)}
+	case 6:
+		ps = []string{q(name, v1), q(name, v2), q(name, vals[3])}
+	case 7:
+		ps = []string{q(name, v1), q(other, "x"), q(name, v1), q(name, v2)}
+	default:
+		ps = []string{name, name, q(other, "1"), q(other, "2")}
+	}
+	fn := pick(r, []string{"json", "json", "logfmt", "line_format"})
+	var bp string
+	switch fn {
+	case "json":
+		bp = " | json"
+	case "logfmt":
+		bp = " | logfmt"
+	default:
+		bp = " | line_format " + strconv.Quote(pick(r, []string{"{{._entry}}", "{{.level}} {{.msg}}", "x"}))
+	}
+	pipe := bp + " | drop " + strings.Join(ps, ", ")
+	switch r.Intn(6) {
+	case 0:
+		pipe += " | " + name + "!=" + strconv.Quote(v1)
+	case 1:
+		pipe += " | " + name + "=" + strconv.Quote(v2)
+	case 2:
+		pipe += " | drop " + q(name, vals[3]) // a second drop stage: its own conjunction
+	}
+	rg := wholeRanges[r.Intn(4)]
+	kind := r.Intn(8)
+	sel := `{app="x"}`
+	switch {
+	case kind < 3:
+		c.Class = "log"
+		c.Query = sel + pipe
+	case kind < 5:
+		c.Class = "lra"
+		c.Query = pick(r, []string{"count_over_time", "rate", "bytes_over_time"}) + "(" + sel + pipe + " [" + rg.text + "])"
+	case kind < 7:
+		c.Class = "lra+agg"
+		rg = exactRanges[r.Intn(4)]
+		c.Query = pick(r, []string{"sum", "count", "max"}) + pick(r, []string{" by (app)", " by (" + name + ")", " without (" + other + ")", ""}) +
+			" (count_over_time(" + sel + pipe + " [" + rg.text + "]))"
+	default:
+		c.Class = "unwrap"
+		rg = exactRanges[r.Intn(4)]
+		c.Query = pick(r, []string{"sum_over_time", "max_over_time", "count_over_time"}) + "(" + sel + pipe + " | unwrap n [" + rg.text + "])" +
+			pick(r, []string{"", " by (app)", " by (" + name + ")"})
+	}
+	c.QTmpl = c.Query
+	c.Class += "+droprep"
+	if kind >= 3 {
+		c.Range, c.RangeKind = rg.text, rangeKind(rg.ns)
+	}
+	dur := rg.ns
+	base := int64(1700000000) * 1e9
+	base -= base % dur
+	nb := int64(1 + r.Intn(3))
+	c.From, c.To = base, base+nb*dur
+	c.Limit = int64([]int{0, 0, 3, 10, 40}[r.Intn(5)])
+	// streams: the named label among the stream labels (line_format split: nothing is extracted) or only in the lines
+	type ser struct {
+		labels map[string]string
+		fp     uint64
+	}
+	var sers []ser
+	nser := 1 + r.Intn(3)
+	for i := 0; i < nser; i++ {
+		l := map[string]string{"app": pick(r, []string{"x", "web"})}
+		if fn == "line_format" || r.Intn(3) == 0 {
+			if w := pick(r, []string{v1, v2, v1, v2, vals[3], ""}); w != "" {
+				l[name] = w
+			}
+		}
+		if r.Intn(3) == 0 {
+			l[other] = pick(r, []string{"x", "1", "2"})
+		}
+		sers = append(sers, ser{l, city.CH64([]byte(labelsKey(l)))})
+	}
+	n := 3 + r.Intn(8)
+	var es []Entry
+	for i := 0; i < n; i++ {
+		s := sers[r.Intn(len(sers))]
+		w := pick(r, []string{v1, v1, v2, v2, vals[3], "zzz", ""})
+		nv := pick(r, []string{"0", "1", "2", "3", "2.5"})
+		var msg string
+		if fn == "logfmt" {
+			msg = "n=" + nv
+			if w != "" {
+				msg = name + "=" + w + " " + msg
+			}
+			msg += pick(r, []string{"", "", " " + other + "=x", " " + other + "=1"})
+		} else {
+			msg = "{"
+			if w != "" {
+				msg += jsonStr(name) + ":" + jsonStr(w) + ","
+			}
+			msg += jsonStr("n") + ":" + nv + pick(r, []string{"", "", "," + jsonStr(other) + ":\"x\"", "," + jsonStr(other) + ":\"2\""}) + "}"
+		}
+		ts := c.From + r.Int63n(c.To-c.From)
+		es = append(es, Entry{TS: ts, FP: s.fp, Labels: cloneMap(s.labels), Msg: hx.Hex(msg), Val: fhex(0)})
+	}
+	sort.SliceStable(es, func(i, j int) bool {
+		if es[i].FP != es[j].FP {
+			return es[i].FP < es[j].FP
+		}
+		return es[i].TS < es[j].TS
+	})
+	if r.Intn(8) != 0 {
+		es = append(es, Entry{Err: "eof", Val: fhex(0)})
+	} else {
+		c.Class += "+noeof"
+	}
+	c.In = split(r, es)
+	return c
+}
+
+func indexOf(xs []string, x string) int {
+	for i, y := range xs {
+		if y == x {
+			return i
+		}
+	}
+	return 0
+}
+
 func split(r *rand.Rand, es []Entry) [][]Entry {
 	var bs [][]Entry
 	mode := r.Intn(4)
@@ -1933,5 +2081,12 @@ func main() {
 	rj := rand.New(rand.NewSource(int64(f.Seed)*31 + 7))
 	for i := 0; i < f.N/8+5; i++ {
 		out.Put(genJSONCase(rj, f.N+i))
+	}
+	// drop stages naming one label several times, from their own stream too
+	rd := rand.New(rand.NewSource(int64(f.Seed)*37 + 11))
+	for i := 0; i < f.N/25+5; i++ {
+		c := genDropRepCase(rd, 2*f.N+i)
+		run(&c)
+		out.Put(c)
 	}
 }
